@@ -271,6 +271,12 @@ impl Vm {
 
     let mut length: usize = 0;
     for arg in args {
+      if !arg.is_obj_kind(ObjectKind::String) {
+        return self.runtime_error_from_str(
+          self.builtin.errors.type_,
+          "Interpolated value's str method must return a string.",
+        );
+      }
       length += arg.to_obj().to_str().len();
     }
 
